@@ -116,7 +116,13 @@ def main():
         e[i]["sol"]["decs"][0][1] = 7
     case("returned_solution_changed", "TraceSeq", "TraceSeq.cfg", evs, m12, ["C02"])
     def m13(e):
-        i = first(e, lambda x: x["ev"] == "cupd" and x["explored"] is False and x["value"] < 1000, 4)
+        cache_on, cands = False, []
+        for i, x in enumerate(e):
+            if x["ev"] == "reset":
+                cache_on = x["cache"] and x["level"] == "full"
+            elif cache_on and x["ev"] == "cupd" and x["explored"] is False and x["value"] < 1000:
+                cands.append(i)
+        i = cands[min(4, len(cands) - 1)]
         e[i]["explored"] = True
         e[i]["value"] += 100
     case("threshold_write_inflated", "TraceSeq", "TraceSeq.cfg", evs, m13, ["C18 read", "C09"])
